@@ -271,6 +271,9 @@ func genEvent(t *rapid.T) *logger.Event {
 	method := rapid.SampledFrom([]string{"GET", "POST", "PUT", "DELETE", "HEAD", "PATCH", "OPTIONS", "PURGE"}).Draw(t, "method")
 	path := rapid.SampledFrom([]string{"/", "/foo", "/a/b/c", "/a%2Fb", "/ü", "/x y", "/a/../b", "//dbl"}).Draw(t, "path")
 	query := rapid.SampledFrom([]string{"", "a=1", "a=1&b=2", "x=%20y", "q", "a=b=c"}).Draw(t, "query")
+	if rapid.IntRange(0, 11).Draw(t, "long-query") == 0 {
+		query = "SAMLRequest=" + strings.Repeat("fZJNb9swDIb", rapid.SampledFrom([]int{380, 600, 2000}).Draw(t, "querylen"))
+	}
 	host := rapid.SampledFrom([]string{"example.com", "example.com:8080", "EXAMPLE.com", "[::1]:9999", "foo", ""}).Draw(t, "reqhost")
 	uri := (&url.URL{Path: path, RawQuery: query}).RequestURI()
 	proto := rapid.SampledFrom([]string{"HTTP/1.1", "HTTP/1.0", "HTTP/2.0"}).Draw(t, "proto")
@@ -279,6 +282,14 @@ func genEvent(t *rapid.T) *logger.Event {
 		if rapid.Bool().Draw(t, "hashdr") {
 			v := rapid.StringMatching(`[ -~]{0,24}`).Draw(t, "hdrval")
 			hdr.Set(h, v)
+			// a header may come on several lines (the field is its first value, as Header.Get gives it)
+			if rapid.IntRange(0, 5).Draw(t, "second-line") == 0 {
+				hdr.Add(h, rapid.StringMatching(`[ -~]{0,24}`).Draw(t, "hdrval2"))
+			}
+			// ... and may be long (a SAML redirect in the Referer, a fat cookie)
+			if rapid.IntRange(0, 11).Draw(t, "long-value") == 0 {
+				hdr.Set(h, strings.Repeat("long-header-value/", rapid.SampledFrom([]int{230, 400, 1200}).Draw(t, "longlen")))
+			}
 		}
 	}
 	scheme := rapid.SampledFrom([]string{"http", "https", "ws", "wss"}).Draw(t, "scheme")
